@@ -168,7 +168,11 @@ def check(sp):
         t3 = mp_io.from_json(json.loads(ltext))
     except Exception as e:  # noqa
         raise Violation("legacy-from-json-raises:" + type(e).__name__, repr(e)[:200], case)
-    if legacy_layout(t3) != want_legacy:
+    try:
+        lay3 = legacy_layout(t3)
+    except Exception as e:  # noqa  (a reloaded tree so malformed that it cannot even be laid out)
+        raise Violation("legacy-round-trip-differs", f"the legacy reload cannot be compared: {type(e).__name__}: {str(e)[:100]}", case)
+    if lay3 != want_legacy:
         raise Violation("legacy-round-trip-differs", "legacy reload differs in id / name / attributes / content / children", case)
     bad = links_ok(t3)
     if bad:
